@@ -57,7 +57,8 @@ def gen_cases(rng, tier):
         t = c["input"]
         ops = []
         held = set()
-        for op in t.args[2]:
+        ctt, rules, nv, ops0 = c03.hist_parts(t)
+        for op in ops0:
             ops.append(op)
             if op.name in ("New", "Dup", "Replace", "DcReplace"):
                 held.add(op.args[0])
@@ -66,7 +67,7 @@ def gen_cases(rng, tier):
             if held and rng.random() < 0.33:
                 ops.append(Con("Read", Con("L", rng.choice(sorted(held)), rng.choice([0, 0, 1, 2])), rng.randrange(c03.READ_KINDS)))
         limit = 16 if tier == "quick" else 80
-        c["input"] = Con("Hist", t.args[0], t.args[1], ops[:limit])
+        c["input"] = c03.mk_hist(ctt, rules, nv, ops[:limit])
         c["kind"] = "history+reads"
     return cases
 
@@ -110,8 +111,9 @@ def search(rng, tier):
 
     for _ in range(40 if tier == "quick" else 400):
         u = gen_universe(rng, n_roots=2, max_levels=2, rich=True)
-        t = norm(c03.gen_history(rng, u, tier))
-        case = {"opts": {"universe": universe_to_json(u)}, "digest_size": rng.choice([1, 8])}
+        rules = c03.gen_rules(rng, u) if rng.random() < 0.5 else []
+        t = norm(c03.gen_history(rng, u, tier, rules=rules))
+        case = {"opts": {"universe": universe_to_json(u), "rules": c03.rules_to_json(rules)}, "digest_size": rng.choice([1, 8])}
         out = impl(t, case)
         for s in out.args[0]:
             if s.args[5] != Con("Frame", True, True):
